@@ -15,15 +15,18 @@ is read back.
         then fetched after all those pushes ("once every clone has pushed and then fetched"), and
         always after the closing suffix "every clone pushes, one after the other, then every clone
         fetches", all holders have exactly the union of all notes written.
-        Failures of (c) inside the known class C10-K1 (overlapping pushes, decided on the schedule
-        by known()) are reported as known, not as violations.
+        Failures of (c) inside the known class C10-K3 (a user-level push with at least as many
+        notes pushes of other clones landing inside it as it has rounds, decided on the schedule by
+        exhausted()) are reported as known, not as violations.  C10-K1 (one overlapping push) is
+        repaired by the retry loop: its witness is a regression witness and must converge.
   correspondence: Model/Sync.v (extracted, mode c10-run) on the same schedule: per step the
         remote's and every clone's map (keys and note blobs) and the push outcome (done / skipped).
 
 Racing pushes are produced deterministically with the guarded rendezvous hook
 `verif_api::sync_point` (env GIT_AI_VERIF_SYNC_DIR) placed before the pre-push merge, before the
 notes push and before the post-fetch merge: a user push is split into pf (fetch into the tracking
-ref) / pm (merge) / pe (non-forced push), a user fetch into ff / fe.  ps starts a push and stops it
+ref) / pm (merge) / pe (non-forced push and everything after it), a user fetch into ff / fe; pr does the push
+of the current round and stops after the fetch of the next round of the retry loop (pf pm (pr pm)* pe).  ps starts a push and stops it
 while its pre-push notes fetch is on the wire (remote.origin.uploadpack wrapper that waits at the
 rendezvous `wire`; only the pre-push notes fetch of a push talks to upload-pack).  The SAME clone
 may commit at every one of these points (an agent committing while the user pushes / fetches).
@@ -43,7 +46,8 @@ GEN_FILES = ["GenSync"]
 DRIVERS = ["sync"]
 THEOREMS = ["C10_no_loss", "C10_single_writer_values", "C10_push_atomic_succeeds",
             "C10_rejected_only_when_pushes_overlap", "C10_converge",
-            "C10_converge_sequential", "C10_first_sync", "C10_race_needs_repush", "C10_ours_example",
+            "C10_converge_sequential", "C10_first_sync", "C10_retry_succeeds", "C10_PushNotes_is_spreads",
+            "C10_retry_budget_tight", "C10_converge_from_pushed", "C10_race_repaired", "C10_ours_example",
             "C10_nonvacuous", "C10_code_order", "C10_commit_during_sync_safe", "C10_copy_window_refuted"]
 CLAIM = {
     "text": "Machine-checked proof (Coq 8.16.1, closed) over an executable model of the notes-sync protocol "
@@ -56,8 +60,13 @@ CLAIM = {
             "(C10_single_writer_values); an uninterleaved PushNotes always succeeds (C10_push_atomic_succeeds); after "
             "any prefix, once every clone has run an uninterleaved PushNotes and afterwards an uninterleaved FetchNotes, "
             "remote and all clones equal the union of all writes (C10_converge, C10_converge_sequential); first syncs "
-            "copy (C10_first_sync).  The literal property is false when two pushes overlap: the later notes push is "
-            "rejected as non-fast-forward and silently skipped (C10_race_needs_repush; known class C10-K1).  The model "
+            "copy (C10_first_sync).  When pushes overlap a round of the later push is rejected as non-fast-forward; the "
+            "retry loop (3 rounds, read from the source) repeats fetch, merge and push, and a user-level push interleaved "
+            "with ANY other steps gets the clone's notes onto the remote provided fewer of its rounds have a notes push "
+            "inside them than it has rounds (C10_retry_succeeds, C10_converge_from_pushed; the bound is tight: "
+            "C10_retry_budget_tight, known class C10-K3; the former witness of the silent skip converges: "
+            "C10_race_repaired).  A same-clone commit between the existence test of refs/notes/ai and the copy is a "
+            "model-level refutation (C10_copy_window_refuted) with a monitored hypothesis.  The model "
             "is tied to the code by running real clones of a real bare remote through the proxy on every enumerated "
             "schedule and comparing every holder's notes after every step.",
     "design_ref": "DESIGN.md §4 C10",
@@ -87,36 +96,13 @@ SYNC_NAMES = ("notes-push-merge", "notes-push", "notes-fetch-merge")
 #   c commit | p push | f fetch | l pull | j join (late clone through the proxy)
 #   pf pm pe : a push split at the rendezvous points | ff fe : a fetch split before its merge
 # ---------------------------------------------------------------------------------------------
-def expand(tokens):
-    """token schedule -> primitive steps in the unchanged code's order (used only by known() and the
-    user-level predicates, which look at ft / pr / commit positions) and, per token, the index of its
-    last step"""
-    steps, ends, k = [], [], 0
-    for op, i in tokens:
-        if op == "c":
-            k += 1
-            steps.append(["commit", i, k, 100 + k])
-        elif op == "p":
-            steps += [["ft", i], ["tl", i], ["ml", i], ["pr", i]]
-        elif op in ("f", "l", "j"):
-            steps += [["ft", i], ["tl", i], ["ml", i]]
-        elif op == "ps":
-            pass
-        elif op in ("pf", "ff"):
-            steps.append(["ft", i])
-        elif op in ("pm", "fe"):
-            steps += [["tl", i], ["ml", i]]
-        elif op == "pe":
-            steps.append(["pr", i])
-        else:
-            raise ValueError(op)
-        ends.append(len(steps) - 1)
-    return steps, ends
+RETRY_ROUNDS = 3     # NOTES_PUSH_ATTEMPTS of the repaired push_authorship_notes
 
 
 def model_tokens(tokens):
-    """user-level tokens for the model driver, which expands them in the order of the CURRENT source"""
-    out, k, started = [], 0, set()
+    """user-level tokens for the model driver, which expands them in the order of the CURRENT source.
+    A split push: ps? pf pm (pr pm)* pe; the driver is told the number of the round."""
+    out, k, started, rnd = [], 0, set(), {}
     for op, i in tokens:
         if op == "c":
             k += 1
@@ -131,10 +117,14 @@ def model_tokens(tokens):
         elif op == "pf":
             out.append(["p1" if i in started else "p01", i])
             started.discard(i)
+            rnd[i] = 1
         elif op == "pm":
-            out.append(["p2", i])
+            out.append(["pm", i, rnd[i]])
+        elif op == "pr":
+            out.append(["pr", i, rnd[i]])
+            rnd[i] += 1
         elif op == "pe":
-            out.append(["p3", i])
+            out.append(["pe", i, rnd[i]])
         elif op == "ff":
             out.append(["f01", i])
         elif op == "fe":
@@ -144,22 +134,21 @@ def model_tokens(tokens):
     return out
 
 
-def known(steps):
-    """C10-K1 (= Coq Known_C10, re-implemented): some clone's notes push comes after another clone's
-    notes push that came after its own latest pre-push fetch."""
-    for a, st in enumerate(steps):
-        if st[0] != "ft":
+def exhausted(tokens):
+    """C10-K3 (decidable on the schedule): some user-level push has at least RETRY_ROUNDS notes pushes of
+    other clones landing while it is in flight (between its start and its end), so that every one of its
+    rounds can be overlapped"""
+    for a, (op, i) in enumerate(tokens):
+        if op not in ("ps", "pf"):
             continue
-        c, seen = st[1], False
-        for st2 in steps[a + 1:]:
-            if st2[0] == "pr":
-                if st2[1] == c:
-                    if seen:
-                        return True
-                    break
-                seen = True
-            elif st2[0] == "ft" and st2[1] == c:
+        n = 0
+        for op2, j in tokens[a + 1:]:
+            if j == i and op2 == "pe":
                 break
+            if j != i and op2 in ("p", "pe", "pr"):
+                n += 1
+        if n >= RETRY_ROUNDS:
+            return True
     return False
 
 
@@ -236,6 +225,10 @@ def well_formed(tokens, n):
             if cur != "pf":
                 return False
             st[i] = "pm"
+        elif op == "pr":
+            if cur != "pm":
+                return False
+            st[i] = "pf"
         elif op == "pe":
             if cur != "pm":
                 return False
@@ -321,6 +314,23 @@ class CloneSim(Sim):
                 os.remove(p)
         self.holds.discard(h)
 
+    def advance(self):
+        """let the held process run to its next rendezvous point (or to its end); the point it leaves stays armed
+        for the later rounds of the retry loop.  Returns (exited, rc, stderr)."""
+        if self.proc is None:
+            return True, None, None
+        h = self.at
+        if h is not None:
+            self.release(h)
+        nxt = self.wait_point()
+        if h is not None and nxt is not None:
+            open(os.path.join(self.sync, h + ".hold"), "w").close()
+            self.holds.add(h)
+        if nxt is None:
+            rc, err = self.finish()
+            return True, rc, err
+        return False, None, None
+
     def finish(self):
         for h in list(self.holds):
             self.release(h)
@@ -400,7 +410,7 @@ class World:
 
     @staticmethod
     def push_failed(err):
-        return "authorship push failed" in err or "authorship push skipped" in err
+        return "authorship push failed" in err
 
     def step(self, op, i):
         """returns {'pushed': bool|None}"""
@@ -434,14 +444,23 @@ class World:
                 cl.release("wire")
             cl.wait_point()
         elif op == "pm":
-            if cl.at == "notes-push-merge":
-                cl.release("notes-push-merge")
-                cl.wait_point()
+            if cl.proc is not None and cl.at == "notes-push-merge":
+                exited, rc, err = cl.advance()
+                if exited:
+                    self.engine_errors.append(f"push(split) {i}: ended between its fetch and its push: {str(err)[-200:]}")
+        elif op == "pr":
+            if cl.proc is not None and cl.at == "notes-push":
+                exited, rc, err = cl.advance()
+                if exited:
+                    if rc != 0:
+                        self.engine_errors.append(f"push(split) {i} rc={rc}: {err[-300:]}")
+                    res["pushed"] = not self.push_failed(err)
         elif op == "pe":
-            rc, err = cl.finish()
-            if rc != 0:
-                self.engine_errors.append(f"push(split) {i} rc={rc}: {err[-300:]}")
-            res["pushed"] = not self.push_failed(err)
+            if cl.proc is not None:
+                rc, err = cl.finish()
+                if rc != 0:
+                    self.engine_errors.append(f"push(split) {i} rc={rc}: {err[-300:]}")
+                res["pushed"] = not self.push_failed(err)
         elif op == "ff":
             cl.start_async(["fetch", "-q", "origin"], ["notes-fetch-merge"])
             cl.wait_point()
@@ -660,7 +679,10 @@ def gen_random(r, n, length):
         elif cur == "pf":
             toks.append(("pm", i)); st[i] = "pm"
         elif cur == "pm":
-            toks.append(("pe", i)); st[i] = None
+            if r.chance(1, 4):
+                toks.append(("pr", i)); st[i] = "pf"
+            else:
+                toks.append(("pe", i)); st[i] = None
         elif cur == "ff":
             toks.append(("fe", i)); st[i] = None
         else:
@@ -699,11 +721,46 @@ def model_runs(runs):
         per_tok = groups[:len(full)]
         tail = {g[0]: g[1] for g in groups[len(full):]}
         seq = [({k: v for k, v in rm}, [{k: v for k, v in l} for l in ls], o) for o, rm, ls in per_tok]
-        out[name] = {"seq": seq, "fuel": tail.get("fuel"), "known": tail.get("known"), "window": tail.get("window")}
+        out[name] = {"seq": seq, "fuel": tail.get("fuel"), "known": tail.get("known"), "window": tail.get("window"),
+                     "attempts": tail.get("attempts")}
     return out
 
 
+# C10-K1 (fixed by the retry loop): a REGRESSION witness, must converge
 K1_WITNESS = [("c", 0), ("c", 1), ("pf", 0), ("pm", 0), ("pf", 1), ("pm", 1), ("pe", 0), ("pe", 1), ("f", 0), ("f", 1)]
+# C10-K3: clone 0 lands a notes push inside every round of clone 1's push
+K3_WITNESS = ([("c", 1), ("pf", 1), ("pm", 1), ("c", 0), ("p", 0), ("pr", 1), ("pm", 1), ("c", 0), ("p", 0), ("pr", 1),
+               ("pm", 1), ("c", 0), ("p", 0), ("pe", 1), ("f", 0), ("f", 1)])
+
+
+def enum_retries():
+    """a user-level push whose rounds are overlapped by k = 0..3 notes pushes of the other clone, each landing either
+    between the round's fetch and its merge or between its merge and its push"""
+    out = []
+
+    def rec(k, acc):
+        if k == 0:
+            out.append(acc)
+            return
+        for where in ("a", "b"):
+            rec(k - 1, acc + [where])
+
+    for k in range(0, RETRY_ROUNDS + 1):
+        rec(k, [])
+    scheds = []
+    for places in out:
+        toks = [("c", 1), ("c", 0), ("p", 0), ("pf", 1)]
+        for idx in range(RETRY_ROUNDS):
+            other = [("c", 0), ("p", 0)]
+            if idx < len(places) and places[idx] == "a":
+                toks += other
+            toks.append(("pm", 1))
+            if idx < len(places) and places[idx] == "b":
+                toks += other
+            toks.append(("pr", 1) if idx < RETRY_ROUNDS - 1 else ("pe", 1))
+        toks += [("f", 0), ("f", 1)]
+        scheds.append(toks)
+    return scheds
 
 
 def run(ctx):
@@ -741,7 +798,10 @@ def run(ctx):
         for k in range(1500):
             n = rr.pick([2, 3, 3])
             plans.append((f"t{k}", n, gen_random(rr, n, rr.range(8, 20)), True, f"random{n}"))
+    for k, toks in enumerate(enum_retries()):
+        plans.append((f"y{k}", 2, toks, True, "retry-rounds"))
     plans.append(("k1", 2, K1_WITNESS, False, "witness"))
+    plans.append(("k3", 2, K3_WITNESS, False, "witness"))
     for p in plans:
         assert well_formed(p[2], p[1]), p
 
@@ -768,7 +828,6 @@ def run(ctx):
                                                                       "commands": rs["log"]}))
             continue
         full = list(toks) + (closing(n) if wc else [])
-        steps, _ = expand(full)
         n_steps += len(full)
         for op, _i in full:
             tok_count[op] = tok_count.get(op, 0) + 1
@@ -778,14 +837,13 @@ def run(ctx):
             elif p is False:
                 outcomes["push_skipped"] += 1
         distinct.add(tok_str(toks))
-        # monitor (C10_rejected_only_when_pushes_overlap on real data): a real notes push of a clone that has
-        # notes is skipped only when the schedule so far is in the overlap class
+        # monitor (C10_retry_succeeds on real data): a user-level push of a clone that has notes ends rejected
+        # only when the retry budget was exhausted (class C10-K3)
         for t, p in enumerate(rs["pushes"]):
             if p is False and rs["obs"][t][1][full[t][1]]:
-                if not known(expand(full[:t + 1])[0]):
+                if not exhausted(full[:t + 1]):
                     reject_outside.append(f"{tok_str(full[:t + 1])}")
-        body_steps, _ = expand(toks)
-        is_known = known(body_steps)
+        is_known = exhausted(toks)
         # ---- oracle
         for f in rs["fails"]:
             violations.append((f["what"] + f" after step {f['at']} of [{tok_str(full)}]",
@@ -800,10 +858,10 @@ def run(ctx):
                                    {"kind": "schedule", "clones": n, "schedule": tok_str(full), "diffs": sp["diffs"]}))
             elif is_known:
                 k1_hits += 1
-                if name == "k1":
+                if name == "k3":
                     k1_witness_fails = True
             else:
-                violations.append((f"ORACLE(c) every clone pushed and then fetched, not converged, outside C10-K1: "
+                violations.append((f"ORACLE(c) every clone pushed and then fetched, not converged, outside C10-K3: "
                                    f"[{tok_str(toks)}]: {sp['diffs']}",
                                    {"kind": "schedule", "clones": n, "schedule": tok_str(toks), "diffs": sp["diffs"]}))
         # ---- correspondence
@@ -816,8 +874,8 @@ def run(ctx):
                 fuel_bad.append(tok_str(full))
             if m["window"] != 0:
                 window_bad.append(tok_str(full))
-            if bool(m["known"]) != known(steps):
-                known_tie_bad.append(tok_str(full))
+            if m["attempts"] != RETRY_ROUNDS:
+                known_tie_bad.append(f"model has {m['attempts']} rounds")
             for t, ((rm, ls), (mrm, mls, mo)) in enumerate(zip(rs["obs"], m["seq"])):
                 if rm != mrm or ls != mls:
                     tie_bad.append((tok_str(full), f"after step {t} ({full[t][0]}{full[t][1]}): real remote={rm} clones={ls}; "
@@ -832,17 +890,17 @@ def run(ctx):
     obligations.append(("tie:correspondence Model/Sync.v vs real clones (notes of every holder after every step, push outcomes)",
                         ctx.model_ok and not tie_bad,
                         (tie_bad[0][0] + " :: " + tie_bad[0][1])[:600] if tie_bad else ("" if ctx.model_ok else "model did not build")))
-    obligations.append(("tie:known-class predicate (Coq Known_C10 = vlib known) on every schedule",
-                        ctx.model_ok and not known_tie_bad, "; ".join(known_tie_bad[:3])))
+    obligations.append((f"tie:the notes push has {RETRY_ROUNDS} rounds (NOTES_PUSH_ATTEMPTS read from the source = the bound of class C10-K3)",
+                        ctx.model_ok and not known_tie_bad, "; ".join(known_tie_bad[:1])))
     obligations.append(("monitor:fuel never exhausted on any executed schedule", not fuel_bad, "; ".join(fuel_bad[:3])))
     obligations.append(("monitor:no executed schedule puts a commit into the copy window of the model (the existence test of "
                         "refs/notes/ai and the copy acting on it are adjacent processes; rendezvous points lie outside)",
                         not window_bad, "; ".join(window_bad[:3])))
-    obligations.append(("monitor:a real notes push is skipped only inside the overlap class C10-K1 (or when the clone has no notes)",
+    obligations.append(("monitor:a real user-level notes push ends rejected only when its retry budget is exhausted (C10-K3) or the clone has no notes",
                         not reject_outside, "; ".join(reject_outside[:3])))
     if k1_witness_fails or k1_hits:
-        known_seen.append("C10-K1 overlapping pushes: the later clone's notes push is rejected (non-fast-forward) and silently "
-                          "skipped; after every clone pushed and fetched its notes are missing until it pushes again")
+        known_seen.append(f"C10-K3 retry budget exhausted: {RETRY_ROUNDS} notes pushes of other clones land inside the {RETRY_ROUNDS} rounds of "
+                          "one user-level push; its notes stay off the remote until the clone pushes again")
     cov = {
         "evaluations": n_steps,
         "runs": len(plans),
@@ -855,11 +913,11 @@ def run(ctx):
                 "the fetch, before the push) and fetch for first-time and later syncs, samples of the length-5 (2 clones) and length-4 (3 clones) atomic schedules, 50 random "
                 "3-clone schedules with late clones, pulls and split operations; each followed by the closing suffix; non-trivial = "
                 "distinct schedule with a commit and a sync step; every step observed on every holder",
-        "samples": [tok_str(p[2]) for p in plans[:3]] + [tok_str(K1_WITNESS)],
+        "samples": [tok_str(p[2]) for p in plans[:3]] + [tok_str(K1_WITNESS), tok_str(K3_WITNESS)],
         "input_distribution": {"families": fam_count, "tokens": tok_count},
         "push_outcomes": outcomes,
         "synced_points_checked": synced_checked,
-        "known_class_hits": {"C10-K1": k1_hits},
+        "known_class_hits": {"C10-K3": k1_hits},
         "wall_real_s": round(wall_real, 1),
     }
     return {"obligations": obligations, "violations": violations, "known_seen": known_seen,
